@@ -148,6 +148,15 @@ CHECKS['C17'] = dict(
     note='trusted: TLC, Fingerprint.tla; Python hash values are opaque (logged as strings / bit lists; identifiers replaced by order-preserving ranks)',
     technique='TLC enumeration of simple paths / partition refinement / bit folding vs recorded fingerprint internals',
     design='5/C17')
+CHECKS['C20'] = dict(
+    text='Corpus and special molecules (Kekule and aromatic, renumbered, with random 2D coordinates, isotopes, charges, radicals, coordinate bonds) go '
+         'through to_rdkit_molecule and from_rdkit_molecule; RDKit molecules of their own (random spellings, renumbered, with map numbers, Kekulised '
+         'or aromatic, with 2D layouts) go through from_rdkit_molecule and back.  TLC compares the projections of both sides field by field, '
+         'requires coordinate bonds to point at the metal, and compares canonical strings (RDKit canonical on its side, chython canonical on the '
+         'other) for constitution always and for configuration inside the symmetry domain it evaluates itself.',
+    note='trusted: TLC, Bridge.tla, Sym.tla; RDKit is part of the system under test. Allenes, non-carbon stereocentres: outside the claim',
+    technique='TLC validation of recorded projections of both toolkits objects (field comparison, canonical strings, both round trips)',
+    design='5/C20')
 PENDING = {}
 
 
